@@ -8,7 +8,7 @@ A = "Assumptions A1-A8 of DESIGN.md 3.7 (callbacks pure w.r.t. the DBFT instance
 CLAIMED = {
 
  "C01": dict(technique="composite of guard/quorum/arith rules (path-condition algebra, affine normal forms)",
-   text="Decides that the four per-node mechanisms agreement rests on are intact on every path: acceptance behind an M-of-N current-view commit quorum, commit lock on ChangeView sends and view changes, view change behind an M-of-N ChangeView quorum, F=(N-1) div 3 and M=N-F. A structural necessary condition: breaking any of them breaks agreement.",
+   text="Decides that the four per-node mechanisms agreement rests on are intact on every path: acceptance behind an M-of-N current-view commit quorum, commit lock on ChangeView sends and view changes, view change behind an M-of-N ChangeView quorum, F=(N-1) div 3 and M=N-F; (pre)commits verified on store under the sender's key and re-validated when the proposal arrives — the latter is the known finding D6 on this tree (early commits are not re-validated; an equivocating primary can split two honest nodes), printed as KNOWN-FINDING. A structural necessary condition: breaking any of them breaks agreement.",
    note="Does NOT decide agreement itself (joint histories of several nodes under an adversarial scheduler, quorum intersection across nodes, amnesia restarts): no static argument in reach composes per-node path facts into that. " + A, ref="4/C01"),
  "C02": dict(technique="guard + quorum-atom analysis, ownership and provenance rules",
    text="ProcessBlock/ProcessPreBlock have one call site each, proven to be behind an M-of-N quorum counted over current-view entries of the per-validator table with all transactions present; stores into per-validator tables are keyed by the payload's own validator index; PrevHash/BlockIndex come from the ledger callbacks, Timestamp/Nonce/TransactionHashes only from the admitted proposal or the proposal builder; transactions filled in proposal order; every Verify call checks a payload's own signature under its sender's key.",
